@@ -96,6 +96,15 @@ func suiteDiffReport(c *Ctx) error {
 			newSrc += shapeFn(fmt.Sprintf("Form%c", 'X'+k), k)
 			plan = append(plan, plannedFn{fmt.Sprintf("Shape%c", 'A'+k), fmt.Sprintf("Form%c", 'X'+k), "renamed-sameshape"})
 		}
+		// methods (pointer and value receivers): kept, edited, renamed, added
+		{
+			k := 2 + rr.Intn(7)
+			common := "type Box struct{ v int }\n\nfunc (b *Box) Get() int { return b.v }\n\n"
+			oldSrc += common + fmt.Sprintf("func (b Box) Twice() int { return b.v * %d }\n\nfunc (b *Box) OldName(k int) int {\n\tt := 0\n\tfor i := 0; i < k; i++ {\n\t\tt += b.v ^ i\n\t}\n\treturn t\n}\n\n", k)
+			newSrc += common + fmt.Sprintf("func (b Box) Twice() int { return b.v*%d + 1 }\n\nfunc (b *Box) NewName(k int) int {\n\tt := 0\n\tfor i := 0; i < k; i++ {\n\t\tt += b.v ^ i\n\t}\n\treturn t\n}\n\nfunc (b *Box) Extra() string { return \"x\" }\n\n", k)
+			plan = append(plan, plannedFn{"(*Box).Get", "(*Box).Get", "kept"}, plannedFn{"(Box).Twice", "(Box).Twice", "edited"},
+				plannedFn{"(*Box).OldName", "(*Box).NewName", "renamed"}, plannedFn{"", "(*Box).Extra", "added"})
+		}
 		{
 			so, sn := zipperStressPairs(rr)
 			oldSrc += strings.TrimPrefix(so, "package genpkg\n")
